@@ -126,18 +126,9 @@ func prepareHistory(id int, sp *Spec) *prepared {
 
 func runHistory(id int, sp *Spec) *Result { return runPrepared(prepareHistory(id, sp)) }
 
-func runPrepared(p *prepared) (res *Result) {
-	h, sp := p.h, p.h.spec
-	rf, conn, connCtx, err := p.rf, p.conn, p.connCtx, p.err
-	res = &Result{Spec: sp}
-	res.histRef = h
-	if err != nil {
-		res.Err = err.Error()
-		return
-	}
-	res.readFiltr = rf
-	g0 := listenerGauge(h.listener)
-	r0, hasRes := retriesCur(h.cluster)
+// buildRequest: stream-level context (as the stream layer's ContextManager builds it), headers, body, trailers, response sender
+func buildRequest(h *hist, connCtx context.Context) (context.Context, api.HeaderMap, buffer.IoBuffer, api.HeaderMap, types.StreamSender) {
+	sp := h.spec
 	cm := stream.NewContextManager(connCtx)
 	cm.Next()
 	sctx := cm.Get()
@@ -177,6 +168,63 @@ func runPrepared(p *prepared) (res *Result) {
 	if !sp.Oneway {
 		sender = h.down
 	}
+	return sctx, hdr, data, trailers, sender
+}
+
+// runInline drives a request that completes inside OnReceive (local reply, one-way, or ended by a short time-out) on the CALLING
+// goroutine, so that two of them run back to back without a scheduling point in between (same P: sync.Pool hands the pooled
+// filter-chain object of the first to the second)
+func runInline(p *prepared) (res *Result) {
+	h, sp := p.h, p.h.spec
+	res = &Result{Spec: sp}
+	if p.err != nil {
+		res.Err = p.err.Error()
+		return
+	}
+	g0 := listenerGauge(h.listener)
+	r0, hasRes := retriesCur(h.cluster)
+	sctx, hdr, data, trailers, sender := buildRequest(h, p.connCtx)
+	h.t0 = time.Now()
+	func() {
+		defer func() {
+			if r := recover(); r != nil {
+				res.Panicked = fmt.Sprint(r)
+			}
+		}()
+		receiver := p.conn.ssc.cb.NewStreamDetect(sctx, sender, nil)
+		receiver.OnReceive(sctx, hdr, data, trailers)
+		h.add(Rec{Kind: "worker.done"})
+		res.Done = true
+	}()
+	res.WaitedMs = int(time.Since(h.t0).Milliseconds())
+	res.Gauge = listenerGauge(h.listener) - g0
+	if hasRes {
+		r1, _ := retriesCur(h.cluster)
+		res.Res, res.HasRes = r1-r0, true
+	}
+	if pr, ok := p.rf.(interface{ ActiveStreamSize() int }); ok {
+		res.Active = pr.ActiveStreamSize()
+	}
+	h.mu.Lock()
+	res.Rec = append([]Rec(nil), h.rec...)
+	h.mu.Unlock()
+	histReg.Delete(h.id)
+	return
+}
+
+func runPrepared(p *prepared) (res *Result) {
+	h, sp := p.h, p.h.spec
+	rf, conn, connCtx, err := p.rf, p.conn, p.connCtx, p.err
+	res = &Result{Spec: sp}
+	res.histRef = h
+	if err != nil {
+		res.Err = err.Error()
+		return
+	}
+	res.readFiltr = rf
+	g0 := listenerGauge(h.listener)
+	r0, hasRes := retriesCur(h.cluster)
+	sctx, hdr, data, trailers, sender := buildRequest(h, connCtx)
 	h.t0 = time.Now()
 	receiver := conn.ssc.cb.NewStreamDetect(sctx, sender, nil)
 	done := make(chan struct{})
